@@ -239,6 +239,9 @@ class Delete(AbstractCommand):
 
     @property
     def can_execute(self):
+        return True
+
+    def _snapshot(self):
         self.feature = self.owner.eContainmentFeature()
         self.references = {}
         # parents before their children: undo then refills a containment
@@ -261,7 +264,6 @@ class Delete(AbstractCommand):
                     index = 0
                 rels_tuple.append((index, obj, reference))
             self.inverse_references[element] = rels_tuple
-        return True
 
     def undo(self):
         for element, v in self.references.items():
@@ -281,6 +283,9 @@ class Delete(AbstractCommand):
         self.do_execute()
 
     def do_execute(self):
+        # what undo must restore is what exists now: inside a Compound the
+        # earlier members have run since can_execute was asked
+        self._snapshot()
         self.owner.delete()
 
     def __repr__(self):
